@@ -43,8 +43,8 @@ func (t *Dense) Transpose() error {
 		t.sanity()
 	}()
 
-	if t.IsVector() {
-		// no data movement
+	if t.IsVector() && t.len() == t.Size() {
+		// no data movement (unless the storage has gaps, e.g. a copy of a stepped view)
 		return nil
 	}
 
